@@ -101,7 +101,7 @@ def _block_singletons(
     individuals_edges = np.full((num_individuals, 2), tskit.NULL)
     individuals_position = np.full(num_individuals, np.nan)
     individuals_singletons = np.zeros(num_individuals)
-    individuals_block = np.full(num_edges, tskit.NULL)
+    individuals_block = np.full(num_individuals, tskit.NULL)
     mutations_block = np.full(num_mutations, tskit.NULL)
 
     blocks_span = []
